@@ -1,5 +1,5 @@
 """C11 -- parent status = hook status + observedGeneration; nothing else is touched."""
-from props import sync_level, COMPOSITE
+from props import sync_level, all_families, COMPOSITE
 import fam_status
 from plan_fin import FIN_PLAN
 
@@ -24,4 +24,4 @@ MANIFEST = dict(
 
 
 def run(scr, tier, replay_file):
-    return sync_level(scr, tier, "C11", "C11_", PLAN, replay_file)
+    return sync_level(scr, tier, "C11", "C11_", all_families(PLAN), replay_file)
